@@ -304,7 +304,15 @@ func expectation(cont, key stick.Value, args []stick.Value) (mode expMode, cands
 	}
 	if sv, ok := key.(stick.SafeValue); ok {
 		// a key wrapped as safe selects what the key inside selects (a safe value coerces like the value inside)
-		return expectation(cont, sv.Value(), args)
+		// (a safe value that is a nil pointer, or whose methods come from a nil embedded value, holds nothing: null)
+		var inner stick.Value
+		func() {
+			defer func() { recover() }()
+			if rk := reflect.ValueOf(key); rk.Kind() != reflect.Ptr || !rk.IsNil() {
+				inner = sv.Value()
+			}
+		}()
+		return expectation(cont, inner, args)
 	}
 	rv := reflect.ValueOf(cont)
 	levels := 0
